@@ -5,7 +5,7 @@ program tokens:
   lit <int> | dlit <int> | elit <int> | inst <integer|decimal|double|boolean> E | tt | ff | emp | var <n> | dot | pos | last | add E E | sub E E | mul E E | gt E E | eq E E
   | cat E E | ite E E E | for <x> E E | let <x> E E | fn <tok> <k> <p1>..<pk> E | tfn <tok> <k> <p1>..<pk> <t1>..<tk> <rt> E (types: item|atomic|integer|decimal|double|boolean|func + optional ?*+) | named <builtin>
   | call E <k> A1..Ak   (A = `?` or E) | spart <builtin> <k> A1..Ak | par E | smap E E | forEach E E | filter E E
-  | foldL E E E | foldR E E E | pairs E E E | sortK E E | apply E <k> E1..Ek
+  | foldL E E E | foldR E E E | pairs E E E | sortK <0|1 case-insensitive collation> E E | slit <k> <cp1>..<cpk> | nan | inf+ | inf- | negz | apply E <k> E1..Ek
   (argument order as in XPath: forEach S F, foldL S Z F, pairs S1 S2 F, sortK S F, apply F [M…])
 Answer:  model=<result> flags=<stale><scope><arity><focus> spec=<result>
 result: items separated by `,` (`()` for the empty sequence): integers, `D<n>` / `E<n>` for an
@@ -42,9 +42,18 @@ partial def parseE : List String → Option (Expr × List String)
   | "inst" :: t :: r => do
     let t ← (match t with
       | "integer" => some Ty.integer | "decimal" => some Ty.decimal | "double" => some Ty.double
-      | "boolean" => some Ty.boolean | _ => none)
+      | "boolean" => some Ty.boolean | "string" => some Ty.string | _ => none)
     let (e, r) ← parseE r
     pure (.inst t e, r)
+  | "slit" :: k :: r => do
+    let k ← nat? k
+    if r.length < k then none else
+    let cs ← (r.take k).mapM nat?
+    pure (.slit cs, r.drop k)
+  | "nan" :: r => some (.nanlit, r)
+  | "inf+" :: r => some (.inflit true, r)
+  | "inf-" :: r => some (.inflit false, r)
+  | "negz" :: r => some (.negzlit, r)
   | "tt" :: r => some (.tt, r)
   | "ff" :: r => some (.ff, r)
   | "emp" :: r => some (.emp, r)
@@ -61,7 +70,7 @@ partial def parseE : List String → Option (Expr × List String)
   | "smap" :: r => bin .smap r
   | "forEach" :: r => bin .forEach r
   | "filter" :: r => bin .filter r
-  | "sortK" :: r => bin .sortK r
+  | "sortK" :: ci :: r => bin (.sortK (ci == "1")) r
   | "ite" :: r => tri .ite r
   | "foldL" :: r => tri .foldL r
   | "foldR" :: r => tri .foldR r
@@ -121,6 +130,10 @@ def showItem : Item → String
   | .fn _ => "F"
   | .dec n => "D" ++ toString n
   | .dbl n => "E" ++ toString n
+  | .str cs => "\"" ++ String.ofList (cs.map Char.ofNat) ++ "\""
+  | .nan => "NaN"
+  | .inf p => if p then "INF" else "-INF"
+  | .negz => "E0"
 
 def showRes : Except Err Seq → String
   | .error e => "ERR:" ++ e.code
